@@ -335,7 +335,7 @@ pub fn c06_check(case: &Case, f32_run: bool, law_counts: &mut std::collections::
 }
 
 pub fn c06_worker(ctx: &mut Ctx) {
-    let total = ctx.count(30_000, 1_500_000);
+    let total = ctx.count(120_000, 4_000_000);
     let mut laws = std::collections::BTreeMap::new();
     for i in ctx.my_indices(total) {
         if ctx.out_of_time() {
@@ -1080,7 +1080,78 @@ pub fn c12_check(case: &Case, rng: &mut Rng, threads: usize, reps: usize, calls_
     Ok(())
 }
 
+/// A long call history in ONE thread over a pool of operand pairs of different sizes: every result must equal the
+/// reference computed for the same pair in a fresh thread (fresh thread-local state). The largest pair recurs at
+/// call numbers that are multiples of 255 and 256, so that state keyed by a small wrapping counter meets itself.
+pub fn c12_history(rng: &mut Rng, size: usize, calls: usize, counts: &mut std::collections::BTreeMap<String, u64>) -> Result<(), Fail> {
+    let mut rej = 0;
+    let mut pool: Vec<Case> = (0..6).map(|_| gen_mixed(rng, 0, &mut rej)).collect();
+    let big = loop {
+        let c = gen_mixed(rng, size.max(1), &mut rej);
+        if c.n_edges() >= 40 {
+            break c;
+        }
+    };
+    pool.push(big);
+    let big_idx = pool.len() - 1;
+    // references from fresh threads
+    let mut reference: Vec<Vec<u64>> = Vec::new();
+    for c in &pool {
+        let (a, b) = (c.a.clone(), c.b.clone());
+        let hashes = std::thread::spawn(move || -> Result<Vec<u64>, Failure> {
+            let mut v = Vec::new();
+            for op in OPS {
+                let r = run_op::<f64>(&a, &b, op, Pairing::MM)?;
+                let mut h = crate::util::Hasher128::default();
+                hash_mp(&mut h, &r);
+                v.push(h.low());
+            }
+            Ok(v)
+        })
+        .join()
+        .map_err(|_| ("determinism".to_string(), "reference thread panicked".to_string()))?
+        .map_err(fail_of)?;
+        reference.push(hashes);
+    }
+    for call in 0..calls {
+        let idx = if call % 255 == 0 || call % 256 == 0 { big_idx } else { rng.below(big_idx as u64) as usize };
+        let oi = if idx == big_idx { 1 } else { rng.below(4) as usize };
+        let c = &pool[idx];
+        let r = run(&c.a, &c.b, OPS[oi], false)?;
+        let mut h = crate::util::Hasher128::default();
+        hash_mp(&mut h, &r);
+        *counts.entry("history-calls".into()).or_insert(0) += 1;
+        if h.low() != reference[idx][oi] {
+            return Err((
+                "determinism".into(),
+                format!("call #{} of a single-thread history ({} on pool entry {} with {} edges) returned a result different from the one computed for the same operands in a fresh thread", call, OPS[oi].name(), idx, c.n_edges()),
+            ));
+        }
+    }
+    Ok(())
+}
+
 pub fn c12_worker(ctx: &mut Ctx) {
+    if !ctx.is_slow_variant() || ctx.variant == "tsan" {
+        let histories = if ctx.variant == "tsan" { ctx.count(8, 64) } else { ctx.count(64, 3000) };
+        let mut counts = std::collections::BTreeMap::new();
+        for i in ctx.my_indices(histories) {
+            if ctx.out_of_time() {
+                break;
+            }
+            let mut rng = ctx.rng("history", i);
+            ctx.begin("history", i, "");
+            ctx.evaluations += 1;
+            if let Err((sym, detail)) = c12_history(&mut rng, ctx.size(), 1100, &mut counts) {
+                ctx.violation(&sym, &detail, json!({"kind": "c12-history", "property": "C12", "seed": ctx.seed, "index": i, "size": ctx.size()}));
+            }
+            ctx.note_nontrivial(crate::util::fnv64(format!("hist{}-{}", ctx.seed, i).as_bytes()));
+            ctx.end();
+        }
+        for (k, v) in counts {
+            ctx.cnt(&k, v);
+        }
+    }
     let slow = ctx.is_slow_variant();
     let miri = ctx.variant == "miri";
     let total = if miri { ctx.count(8, 64) } else if slow { ctx.count(600, 30_000) } else { ctx.count(6_000, 300_000) };
